@@ -9,15 +9,16 @@ if "--tier" in sys.argv:
     tier = sys.argv[sys.argv.index("--tier") + 1]
     args = [a for a in args if a != tier]
 seed, checks = args[0], args[1:]
+REPO = os.environ.get("SEED_REPO", "/repo")  # a scratch worktree of /repo may be used instead (checks get JFV_REPO)
 d = os.path.join("/verif/seeded", seed)
 patch = os.path.join(d, "patch_on_fixed_tree.diff")
 if not os.path.exists(patch):
     patch = os.path.join(d, "patch.diff")
-if subprocess.run(["git", "-C", "/repo", "status", "--porcelain", "--untracked-files=no"], capture_output=True, text=True).stdout.strip():
-    sys.exit("/repo has uncommitted changes; refusing")
-r = subprocess.run(["git", "-C", "/repo", "apply", "--3way", patch], capture_output=True, text=True)
+if subprocess.run(["git", "-C", REPO, "status", "--porcelain", "--untracked-files=no"], capture_output=True, text=True).stdout.strip():
+    sys.exit(REPO + " has uncommitted changes; refusing")
+r = subprocess.run(["git", "-C", REPO, "apply", "--3way", patch], capture_output=True, text=True)
 if r.returncode != 0:
-    subprocess.run(["git", "-C", "/repo", "reset", "-q", "--hard", "HEAD"])
+    subprocess.run(["git", "-C", REPO, "reset", "-q", "--hard", "HEAD"])
     sys.exit("patch does not apply: " + r.stderr)
 results = {}
 try:
@@ -25,7 +26,7 @@ try:
         t = time.time()
         os.makedirs("/tmp/jfv_seed_evidence", exist_ok=True)
         p = subprocess.run(["./check", c, "--tier", tier], cwd="/verif", capture_output=True, text=True,
-                           env=dict(os.environ, JFV_EVIDENCE_DIR="/tmp/jfv_seed_evidence"))
+                           env=dict(os.environ, JFV_EVIDENCE_DIR="/tmp/jfv_seed_evidence", JFV_REPO=REPO))
         lines = [l for l in p.stdout.splitlines() if l.startswith(("VIOLATION", "  key=", "HARNESS"))][:4]
         results[c] = {"exit": p.returncode, "tier": tier, "wall_s": round(time.time() - t, 1), "first_lines": lines}
         print(seed, c, "exit", p.returncode, "%.1fs" % (time.time() - t))
@@ -34,7 +35,7 @@ try:
         if p.returncode not in (0, 1):
             print(p.stdout[-1500:], p.stderr[-1500:])
 finally:
-    subprocess.run(["git", "-C", "/repo", "reset", "-q", "--hard", "HEAD"])
+    subprocess.run(["git", "-C", REPO, "reset", "-q", "--hard", "HEAD"])
 mp = os.path.join(d, "meta.json")
 meta = json.load(open(mp)) if os.path.exists(mp) else {"seed": seed, "property": seed.split("-")[0]}
 meta.setdefault("checks_run", {}).update(results)
